@@ -71,7 +71,7 @@ def fmtReq (pt : PTree) (g : Globals) (m url : String) : String :=
   let s := select pt m us
   let (rem, grem) := getRemedies pt g m us
   let (dg, gdg) := getDiagnoses pt g m us
-  let pol := match s.policy with | some p => pctEnc p.src.url | none => "-"
+  let pol := match s.policy with | some p => pctEnc p.url | none => "-"
   let (norm, params) := if s.hasValue then (pctEnc (renderParts s.norm), fmtParams s.params) else ("%e", "-")
   s!"val={if s.hasValue then 1 else 0} pol={pol} rem={fmtNames rem} grem={fmtNames grem} diag={fmtNames dg} gdiag={fmtNames gdg} sd={if shouldDiagnose pt g m us then 1 else 0} norm={norm} params={params}"
 
